@@ -513,6 +513,103 @@ def monitored_call(code, path, spec, events=("LINE", "BRANCH")):
     return {"lines": sorted(lines), "branches": branches, "starts": sorted(starts), "exc": exc}
 
 
+def sequence_of(specs):
+    """Executions on one executor come in sequences: every input, then the first one twice more (same
+    function, same first line as the previous execution's last), then the others in reverse order."""
+    if not specs:
+        return []
+    return list(specs) + [specs[0], specs[0]] + list(reversed(specs))[:2]
+
+
+def monitored_sequence(code, path, specs, events=("LINE", "BRANCH", "PY_START")):
+    """Like monitored_call, but the module is executed once and f is called for every input in turn (state of
+    the module persists, as for the test cases of one run); one observation per call."""
+    from props import _c01_gen as G
+
+    mon = sys.monitoring
+    ns = {"__name__": "gm", "__file__": path}
+    out = io.StringIO()
+    index_of = {id(c): k for k, c in enumerate(code_tree(code))}
+    cur = {"lines": set(), "branches": [], "starts": set()}
+
+    def on_line(c, line):
+        if c.co_filename == path:
+            cur["lines"].add(line)
+            return None
+        return mon.DISABLE
+
+    def on_branch(c, off, dest):
+        if c.co_filename == path:
+            cur["branches"].append((index_of.get(id(c), -1), off, dest))
+            return None
+        return mon.DISABLE
+
+    def on_start(c, off):
+        if c.co_filename == path:
+            cur["starts"].add(index_of.get(id(c), -1))
+            return None
+        return mon.DISABLE
+
+    res = []
+    with contextlib.redirect_stdout(out):
+        exec(code, ns)  # noqa: S102
+        mon.use_tool_id(TOOL, "c02")
+        try:
+            ev = 0
+            for name, cb in (("LINE", on_line), ("BRANCH", on_branch), ("PY_START", on_start)):
+                if name in events:
+                    mon.register_callback(TOOL, getattr(mon.events, name), cb)
+                    ev |= getattr(mon.events, name)
+            for spec in specs:
+                args, _iters = G.materialise(spec)
+                cur["lines"], cur["branches"], cur["starts"] = set(), [], set()
+                exc = None
+                mon.set_events(TOOL, ev)
+                try:
+                    ns["f"](*args)
+                except BaseException as e:  # noqa: BLE001
+                    if isinstance(e, (KeyboardInterrupt, SystemExit, MemoryError)):
+                        raise
+                    exc = type(e).__name__
+                finally:
+                    mon.set_events(TOOL, 0)
+                    mon.restart_events()
+                res.append({"lines": sorted(cur["lines"]), "branches": list(cur["branches"]),
+                            "starts": sorted(cur["starts"]), "exc": exc})
+        finally:
+            mon.set_events(TOOL, 0)
+            for name in ("LINE", "BRANCH", "PY_START"):
+                mon.register_callback(TOOL, getattr(mon.events, name), None)
+            mon.free_tool_id(TOOL)
+    return res
+
+
+def traced_sequence(sp, code, path, specs):
+    """The instrumented module is executed once; then, as the executor does for consecutive test cases, a
+    fresh trace is started (init_trace) before every call of f.  Returns [(exception type, trace)]."""
+    from props import _c01_gen as G
+
+    tr = sp.instrumentation_tracer
+    tr.reset()
+    ns = {"__name__": "gm", "__file__": path}
+    out = io.StringIO()
+    res = []
+    with contextlib.redirect_stdout(out), tr:
+        exec(code, ns)  # noqa: S102
+        for spec in specs:
+            args, _iters = G.materialise(spec)
+            tr.init_trace()
+            exc = None
+            try:
+                ns["f"](*args)
+            except BaseException as e:  # noqa: BLE001
+                if isinstance(e, (KeyboardInterrupt, SystemExit, MemoryError)):
+                    raise
+                exc = type(e).__name__
+            res.append((exc, tr.get_trace()))
+    return res
+
+
 def traced_call(sp, code, path, spec):
     """Run the instrumented module, then f, with a trace that holds the call phase only."""
     tr = sp.instrumentation_tracer
